@@ -146,8 +146,9 @@ RegionLoop(ed, loc, k, beg, end) ==
          IN RegionLoop(ed1, loc, k + 1, b1, e1)
 Region(ed, loc) ==      \* [ok, beg, end, ed]
     IF IsPct(loc) THEN [ok |-> TRUE, beg |-> 0, end |-> NLines(ed), ed |-> ed]
-    ELSE IF loc = <<>> THEN [ok |-> TRUE, beg |-> ed.row,
-                             end |-> IF ed.row = NLines(ed) THEN ed.row ELSE ed.row + 1, ed |-> ed]
+    ELSE IF loc = <<>> THEN     \* a current line beyond the buffer (after an undo) counts as the position after the last line
+         LET b == IF ed.row < NLines(ed) THEN ed.row ELSE NLines(ed) IN
+         [ok |-> TRUE, beg |-> b, end |-> IF b = NLines(ed) THEN b ELSE b + 1, ed |-> ed]
     ELSE LET r  == RegionLoop(ed, loc, 1, 0, 0)
              b  == IF r[1] < 0 /\ r[2] = 0 THEN 0 ELSE r[1]
              n  == NLines(r[3])
